@@ -9,6 +9,8 @@
 //! The loader is an in-memory logging `ModuleLoader`: every `load_imported_module` call is logged as
 //! (referrer path, specifier); a specifier is parsed the first time it is asked for (by the host or by an
 //! import) and the same `Module` is returned afterwards, as the host hook contract requires.
+//! With the optional hook `verif::take_module_events` (detected by build.rs) the result also carries
+//! "events": [[specifier, from, to]…], the recorded [[Status]] transitions.
 //! A Rust panic is data: {"id":…, "panic": "msg @ file:line", "partial": [steps completed so far]}.
 
 use boa_engine::{
@@ -82,6 +84,8 @@ fn run_scenario(sc: Value) -> Value {
             loader.sources.borrow_mut().insert(k.clone(), v.as_str().unwrap_or("").to_string());
         }
     }
+    #[cfg(has_module_events)]
+    boa_engine::verif::set_module_events(true);
     let mut ctx = Context::builder().module_loader(loader.clone()).build().expect("context");
     install_print(&mut ctx);
     let _ = take_out();
@@ -155,7 +159,28 @@ fn run_scenario(sc: Value) -> Value {
     }
     let log: Vec<Value> = loader.log.borrow().iter().map(|(a, b)| json!([a, b])).collect();
     let parsed: Vec<Value> = loader.parsed.borrow().iter().map(|s| json!(s)).collect();
-    json!({"id": sc.get("id").cloned().unwrap_or(Value::Null), "steps": steps_out, "log": log, "parsed": parsed})
+    #[allow(unused_mut)]
+    let mut res = json!({"id": sc.get("id").cloned().unwrap_or(Value::Null), "steps": steps_out, "log": log, "parsed": parsed});
+    #[cfg(has_module_events)]
+    {
+        // status(module, from, to) events of the hook, with module ids mapped back to specifiers
+        let ids: Vec<(usize, String)> = loader
+            .cache
+            .borrow()
+            .iter()
+            .filter_map(|(spec, m)| boa_engine::verif::module_event_id(m).map(|id| (id, spec.clone())))
+            .collect();
+        let evs: Vec<Value> = boa_engine::verif::take_module_events()
+            .into_iter()
+            .map(|(id, from, to)| {
+                let name = ids.iter().find(|(i, _)| *i == id).map_or("?", |(_, s)| s.as_str());
+                json!([name, from, to])
+            })
+            .collect();
+        boa_engine::verif::set_module_events(false);
+        res["events"] = json!(evs);
+    }
+    res
 }
 
 /// Runs scenarios on one big-stack thread until one of them panics; returns the results and whether the
